@@ -158,3 +158,19 @@ package cisco
 //vc:  assign at "if !s.equalizedGroups(aName, bName) {" anyUnequal = ite(rangeindex == -1, false, anyUnequal)
 //vc:  assign after "if !s.equalizedGroups(aName, bName) {" anyUnequal = anyUnequal || !callresult
 //vc:  invariant[C01] 2 "for i, aName := range a.ref" @changedRefAccumulates -1 <= rangeindex && (rangeindex == -1 ==> !changedRef) && (rangeindex >= 0 ==> changedRef == anyUnequal)
+
+// ---- C18: [APPEND] marker and raw-file strictness in the Cisco parser ----
+// appendSeenC: a line [APPEND] was read (state machine over the input lines
+// alone); every command parsed afterwards carries the append flag, none before.
+// unknownTop: a toplevel line matched no known command.
+//vc:ghost var appendSeenC bool
+//vc:ghost var unknownTop bool
+//vc:func (*parser).ParseConfig
+//vc:  init appendSeenC = false
+//vc:  init unknownTop = false
+//vc:  assign after "line = strings.TrimRightFunc(line, unicode.IsSpace)" appendSeenC = appendSeenC || callresult == "[APPEND]"
+//vc:  assign after "c := p.lookupCmd(line)" unknownTop = unknownTop || callresult == nil
+//vc:  invariant[C18] 1 "for len(data) > 0" @appendFlagFollowsMarker isAppend == appendSeenC
+//vc:  invariant[C18] 1 "for len(data) > 0" @unknownCommandNotSkippedInRaw !(isRaw && unknownTop)
+//vc:  assert[C18] at "m[c.name] = append(m[c.name], c)" @toplevelCarriesAppendState c.append == appendSeenC
+//vc:  ensures[C18] @rawFileWithUnknownCommandRejected path.Ext(fName) == ".raw" && unknownTop ==> result1 != nil
